@@ -5,7 +5,9 @@ pub mod c04;
 pub mod c05;
 pub mod c06;
 pub mod c07;
+pub mod c09;
 pub mod c10;
+pub mod c11;
 pub mod c12;
 pub mod c14;
 pub mod c15;
@@ -22,7 +24,9 @@ pub fn dispatch(prop: &str, rc: &mut RunCtx) -> bool {
         "C05" => c05::run(rc),
         "C06" => c06::run(rc),
         "C07" => c07::run(rc),
+        "C09" => c09::run(rc),
         "C10" => c10::run(rc),
+        "C11" => c11::run(rc),
         "C12" => c12::run(rc),
         "C14" => c14::run(rc),
         "C15" => c15::run(rc),
